@@ -19,6 +19,8 @@ for d in sorted(glob.glob(os.path.join(ROOT, "seeded", "C*-*"))):
     caught = sorted(k for k, v in res["checks"].items() if v["exit"] == 1)
     missed = sorted(k for k, v in res["checks"].items() if v["exit"] == 0)
     broken = sorted(k for k, v in res["checks"].items() if v["exit"] not in (0, 1))
+    if "suite" not in res and os.path.exists(os.path.join(d, "verify.json")):
+        res["suite"] = {"lines": json.load(open(os.path.join(d, "verify.json"))).get("suite_with_change", [])}
     suite = "; ".join(l.split("test result: ")[1].split(";")[0] + ";" + l.split(";")[1] for l in res.get("suite", {}).get("lines", []) if "passed" in l and not l.startswith("test result: ok. 0 passed"))
     rows.append((name, (meta.get("summary") or "").replace("\n", " ").replace("|", "/")[:230], ", ".join(meta.get("files", []))[:60], suite, ", ".join(caught), ", ".join(missed), ", ".join(broken)))
 with open(os.path.join(ROOT, "seeded", "RESULTS.md"), "w") as f:
